@@ -10,6 +10,7 @@
 #include <string>
 #include <vector>
 #include <span>
+#include <utility>
 #define protected public
 #include <kernel/chainparams.h>
 #undef protected
@@ -104,12 +105,14 @@ static void h_v1_t()
     // ---- sender
     char type[13]; uint8_t payload[5];
     bool type_valid = true;
-    for (int i = 0; i < TLEN; i++) { type[i] = TYPES[TYPEID][i]; if (type[i] < 0x20 || type[i] > 0x7E) type_valid = false; }
+    // immediate constants, one store per character (a block copy out of the string literal is not constant-propagated by symex)
+    [&]<size_t... I>(std::index_sequence<I...>) { ((type[I] = std::integral_constant<char, TYPES[TYPEID][I]>::value), ...); }(std::make_index_sequence<TLEN>{});
+    for (int i = 0; i < TLEN; i++) if (type[i] < 0x20 || type[i] > 0x7E) type_valid = false;
     type[TLEN] = 0;
     for (int i = 0; i < PLEN; i++) payload[i] = nondet_u8();
     V1Transport& s = *new V1Transport(0);
     // (no std::string::assign(const char*): its aliasing test compares pointers into different objects, which symex cannot decide)
-    CSerializedNetMsg msg; msg.m_type.resize(TLEN); for (int i = 0; i < TLEN; i++) msg.m_type[i] = type[i];
+    CSerializedNetMsg msg; for (int i = 0; i < TLEN; i++) msg.m_type.push_back(type[i]);
     msg.data.resize(PLEN); for (int i = 0; i < PLEN; i++) msg.data[i] = payload[i];
     VASSERT(s.SetMessageToSend(msg), "SetMessageToSend accepts a message when idle");
     { CSerializedNetMsg second; second.m_type.resize(4, 'p'); VASSERT(!s.SetMessageToSend(second), "no second message while one is being sent"); }
